@@ -117,7 +117,7 @@ def write_evidence(prop, tier, seed, coverage, assumptions, wall_s, violations):
         'coverage': coverage, 'assumptions': assumptions,
         'wall_s': round(wall_s, 3), 'violations': violations,
     }
-    tmp = os.path.join(EVIDENCE_DIR, f'.{prop}.json.tmp')
+    tmp = os.path.join(EVIDENCE_DIR, f'.{prop}.json.{os.getpid()}.tmp')   # two runs of one check may overlap
     with open(tmp, 'w') as f:
         json.dump(doc, f, indent=1, sort_keys=True, default=repr)
     os.replace(tmp, os.path.join(EVIDENCE_DIR, f'{prop}.json'))
